@@ -59,6 +59,28 @@ func run(c *hlib.Ctx) {
 		chain3With(c, g, 13)
 		forceSeq = false
 	}
+	// the linear step of ARAP on every (linear, rotation) scheme pair, half of them on dyadic meshes
+	// (exact mode: the rigid image must solve the real system exactly)
+	for i := 0; i < 18+c.N/10; i++ {
+		g := pickGen3(c)
+		for tries := 0; (g.m.NumTriangles() > 236 || strings.HasPrefix(g.label, "multi") || (i%2 == 0 && !g.exact)) && tries < 40; tries++ {
+			g = pickGen3(c)
+		}
+		if g.m.NeedsRepair() || len(g.m.SingularVertices()) > 0 || g.m.NumTriangles() > 236 {
+			c.Stat("gen3-rejected:"+g.label, 1)
+			continue
+		}
+		st := &state3{ids: newIDs3(), exact: g.exact}
+		st.soup = st.ids.soup(g.m)
+		nv := len(usedIDs3(st.soup))
+		if nv > 120 || nv < 4 || components3(st.soup) != 1 {
+			continue
+		}
+		c.Stat("gen3:"+strings.SplitN(g.label, "(", 2)[0], 1)
+		linPair = i
+		emitArapLin(c, st, st.ids.meshFromSoup(st.soup), st.exact)
+		linPair = -1
+	}
 	n3 := c.N * 2 / 3
 	for i := 0; i < n3; i++ {
 		chain3(c)
